@@ -55,6 +55,8 @@ def run(ctx):
                 ops += [("commit", 0), ("open", 0)]
         ops.append(("commit", 0))
         cases.append(("flushy%d" % i, r.choice(["mem", "libc"]), T.gid_of(d), d, ops))
+    # merge commands over transaction-local tips / committed heads, duplicates before the merge is flushed
+    cases += T.merge_family_cases(ctx, 120 if ctx.thorough else 16, 12, 60 if ctx.thorough else 34)
     if ctx.thorough:
         cases += T.exhaustive_small_cases(False) + T.exhaustive_small_cases(True)
     cases = T.replay_cases(ctx) or cases
